@@ -29,6 +29,7 @@ def dispatch (j : Json) : Json :=
   | "fa_enroll" => opFaEnroll j
   | "fa_blocks" => opFaBlocks j
   | "fa_score" => opFaScore j
+  | "fa_train" => opFaTrain j
   | "own_check" => opOwnCheck j
   | "rng_keys" => opRngKeys j
   | "sched_check" => opSchedCheck j
